@@ -195,7 +195,8 @@ def bytesBackend : Backend BytesDec where
 
 /-- BytesSkipDecoder.Next(t): (returned bytes, decoder afterwards) -/
 def bytesDecNext (s : BytesDec) (t : UInt8) : TOut (Bytes × BytesDec) := do
-  let s1 ← skipTplAt bytesBackend Facts.defaultRecursionDepth t s
+  -- `p.n = 0` at entry (fix: commit for F16): an earlier Next that failed part-way leaks no offset
+  let s1 ← skipTplAt bytesBackend Facts.defaultRecursionDepth t { s with n := 0 }
   if s1.n > s1.b.length then .panic "slice" else
   pure (s1.b.take s1.n, { b := s1.b.drop s1.n, n := 0 })
 
